@@ -55,8 +55,9 @@ fn main() {
     let code = ["auth_state::merge.ensures#pointwise_merge_rule", "auth_state::merge.safety", "auth_state::PartialOrd@Access::partial_cmp.safety", "auth_state::merge.loop1.invariant#merged_so_far"];
     let mut rep = |class: String, input: Value, obs: Value| {
         let mut obl: Vec<&str> = code.to_vec();
-        if class.starts_with("commutativity") { obl.extend(["auth_state::lemma.lemma_merge_commutative_without_conditions", "auth_state::lemma.lemma_merge_commutative_with_totally_ordered_conditions"]); }
-        if class.starts_with("associativity") { obl.extend(["auth_state::lemma.lemma_merge_associative_without_conditions", "auth_state::lemma.lemma_merge_associative_with_totally_ordered_conditions"]); }
+        let plain = class.ends_with("-without-conditions");
+        if class.starts_with("commutativity") { obl.push(if plain { "auth_state::lemma.lemma_merge_commutative_without_conditions" } else { "auth_state::lemma.lemma_merge_commutative_with_totally_ordered_conditions" }); }
+        if class.starts_with("associativity") { obl.push(if plain { "auth_state::lemma.lemma_merge_associative_without_conditions" } else { "auth_state::lemma.lemma_merge_associative_with_totally_ordered_conditions" }); }
         if class.starts_with("idempotence") { obl.extend(["auth_state::lemma.lemma_merge_idempotent", "auth_state::lemma.lemma_access_lt_irreflexive"]); }
         if reported.insert(class.clone()) { rp_core::report(true, &class, input, obs, &obl); }
     };
